@@ -125,6 +125,7 @@ char *str_oct2char( char *str0, int *len )
 
    str = (char *)malloc( (*len+1) * sizeof(char) );
    strncpy( str, str0, *len );
+   str[*len] = '\0';
 
    i = 0;
    for ( k = 0; k < *len ; k++)
@@ -145,6 +146,7 @@ char *str_oct2char( char *str0, int *len )
             {
             strncpy( buf, str+k+1, 3 );
             buf[3] = '\0';
+            c = 0;
             sscanf( buf, "%o", &c );
             str[i++] = c;
 
@@ -191,7 +193,7 @@ char *str_schar2oct( char *str, int *len, int *bsize )
 
    for (j = 0; j < i ; j++ )
       {
-      if (isspace(str[j])||iscntrl(str[j])||(str[j]=='\0'))
+      if (isspace(str[j])||iscntrl(str[j])||(str[j]=='\0')||(str[j]=='\\'))
          {
          sprintf( buf, "%.3o", (unsigned char)str[j] );
          append_char_to_string( &str2, bsize, &l, '\\' );
